@@ -29,7 +29,9 @@ STRINGS_ANNEXB = ['"\\101"', "'\\7\\08'", '"\\377\\400"']
 STRINGS = ['""', "''", '"a"', "'a'", '"hello world"', "'it\\'s'", '"say \\"hi\\""', '"a\\nb"', '"tab\\t"',
            "'\\\\'", '"\\x41"', '"\\u0041"', '"\\0"', "'\\r\\n'", '"/*not a comment*/"', "'// nor this'",
            '"\\b\\f\\v"', '"é"', "'变'", '"a\'b"', "'a\"b'", '"\\/"', "'\\q'", '"use strict"', "' '", '";"',
-           '"}"', "'{'", '"</script>"']
+           '"}"', "'{'", '"</script>"',
+           # characters outside the basic plane (one character of the text, two UTF-16 units, four UTF-8 bytes)
+           '"\U0001F600"', "'a\U0001F600b\U00010000c'", '"\U0001D11E \U0001D11E"']
 STRINGS_CONT = ['"a\\\nb"', "'a\\\r\nb'", '"x\\\ry"', '"p\\\u2028q"', "'\\\n'",
                 # several line terminators inside one token
                 '"a\\\nb\\\nc"', "'\\\n\\\r\n\\\rx'", '"l1\\\u2029l2\\\nl3\\\r\nl4"',
@@ -37,7 +39,7 @@ STRINGS_CONT = ['"a\\\nb"', "'a\\\r\nb'", '"x\\\ry"', '"p\\\u2028q"', "'\\\n'",
                 '"a\x0cb\\\nc\x0bd"', "'\x1cx\\\r\ny\x85z\\\nw'"]
 REGEXES = ['/a/', '/a/g', '/ab+c/gi', '/[/]/', '/[a-z]/i', '/\\//', '/a\\/b/m', '/[\\]]/', '/(?:a|b)*/',
            '/^$/', '/\\d+/g', '/[^/]/', '/=/', '/=a/', '/ /', '/a b/', '/\\s/', '/[/\\]/]/', '/"/', "/'/",
-           '/a/gim', '/{/', '/}/', '/(/ ', '/[(]/']
+           '/a/gim', '/{/', '/}/', '/(/ ', '/[(]/', '/\U0001F600+/', '/[\U00010000-\U0001F600]/g']
 REGEXES = [r.strip() if r != '/ /' else r for r in REGEXES if r.strip() != '/(/']
 
 BINOPS = [('||', 1), ('&&', 2), ('|', 3), ('^', 4), ('&', 5), ('==', 6), ('!=', 6), ('===', 6), ('!==', 6),
@@ -782,13 +784,15 @@ def render(tokens, style='space', rng=None, lt=None, comments=False):
                     sep = (lt if rng.random() < 0.7 else rng.choice(LINE_TERMINATORS)) + \
                         (' ' * rng.randint(0, 4) if rng.random() < 0.5 else '')
                 elif comments and r < 0.95:
-                    sep = rng.choice([' /* c%d */ ', '/*c%d*/', '/* c%d  */', '/** c%d **/', ' /*%d // */ ']) % i \
+                    sep = rng.choice([' /* c%d */ ', '/*c%d*/', '/* c%d  */', '/** c%d **/', ' /*%d // */ ',
+                                      '/*\U0001F600%d\U0001F600*/']) % i \
                         if rng.random() < 0.6 else rng.choice(['/*m%d%s*/', '/**%s * m%d%s */', '/*%s%s%s m%d */', '/* f\x0cf m%d%s v\x0bv%s \x85 */',
                                                                '/*\x1c%s\x1d m%d \x1e%s*/']).replace(
                             '%s', lt).replace('%d', str(i))
                 elif comments:
                     # bodies with trailing / leading white space, empty bodies, comment openers inside
-                    body = rng.choice([' line %d', ' line %d  ', '%d\t', ' %d \xa0', '', ' /* %d', '/ %d //'])
+                    body = rng.choice([' line %d', ' line %d  ', '%d\t', ' %d \xa0', '', ' /* %d', '/ %d //',
+                                       ' \U0001F600 %d'])
                     sep = ' //' + (body % i if '%d' in body else body) + lt
                 else:
                     sep = ' '
